@@ -410,7 +410,17 @@ func indexCase(w *gal.Writer, ps []*apk.Package, class, note string) {
 		return
 	}
 	addDecodes(t, text)
-	ix, rerr := apk.IndexFromArchive(io.NopCloser(bytes.NewReader(archive)))
+	var ix *apk.APKIndex
+	var rerr error
+	func() {
+		defer func() {
+			if x := recover(); x != nil {
+				fmt.Printf("IMPL-VIOLATION tag=panic-IndexFromArchive {\"input\":%q,\"panic\":%q}\n", text, fmt.Sprint(x))
+				rerr = fmt.Errorf("panic")
+			}
+		}()
+		ix, rerr = apk.IndexFromArchive(io.NopCloser(bytes.NewReader(archive)))
+	}()
 	var rb []*apk.Package
 	rw := "Err"
 	if rerr == nil {
@@ -444,7 +454,17 @@ func installedCase(w *gal.Writer, p *apk.Package, files []tar.Header, class, not
 	rbTerm, rwTerm := "Err", "Err"
 	if werr == nil {
 		addDecodes(b64, text)
-		ips, rerr := apk.ParseInstalled(strings.NewReader(text))
+		var ips []*apk.InstalledPackage
+		var rerr error
+		func() {
+			defer func() {
+				if x := recover(); x != nil {
+					fmt.Printf("IMPL-VIOLATION tag=panic-ParseInstalled {\"input\":%q,\"panic\":%q}\n", text, fmt.Sprint(x))
+					rerr = fmt.Errorf("panic")
+				}
+			}()
+			ips, rerr = apk.ParseInstalled(strings.NewReader(text))
+		}()
 		rbTerm = galResInstalled(ips, rerr)
 		if rerr == nil && len(ips) == 1 {
 			for _, ip := range ips {
@@ -754,6 +774,41 @@ func run(dir string, seed uint64, tier string) error {
 		z.Checksum = []byte{}
 		indexCase(w, []*apk.Package{z}, "corpus", "epoch build time is written as t:0; empty checksum is C:Q1")
 	}
+	{ // the CLASS "checksum of every length": the zero value (nil), the empty slice, 1, 4, 19, 20 (a SHA-1), 21, 24 bytes --
+		// write then read then write again through the index and through the installed db, and the same values on the
+		// reader side with and without the Q1 prefix (an un-prefixed value is skipped by both readers)
+		csum := func(n int) []byte {
+			if n < 0 {
+				return nil
+			}
+			b := make([]byte, n)
+			for i := range b {
+				b[i] = byte(0xf1 + 7*i)
+			}
+			return b
+		}
+		var mixed []*apk.Package
+		for _, n := range []int{-1, 0, 1, 4, 19, 20, 21, 24} {
+			p := base()
+			p.Checksum = csum(n)
+			indexCase(w, []*apk.Package{p}, "corpus", fmt.Sprintf("checksum of %d bytes (-1: nil, the zero value)", n))
+			installedCase(w, p, nil, "corpus", fmt.Sprintf("checksum of %d bytes (-1: nil, the zero value)", n))
+			q := base()
+			q.Name, q.Checksum = fmt.Sprintf("p%d", len(mixed)), csum(n)
+			mixed = append(mixed, q)
+			if n >= 0 {
+				enc := base64.StdEncoding.EncodeToString(csum(n))
+				readCase(w, "C:Q1"+enc+"\nP:a\nV:1\nT:\n\n", "corpus", fmt.Sprintf("C: with the Q1 prefix, %d bytes", n))
+				readCase(w, "C:"+enc+"\nP:a\nV:1\nT:\n\n", "corpus", fmt.Sprintf("C: without the Q1 prefix, %d bytes", n))
+				readCase(w, "P:a\nV:1\nC:Q1"+enc+"\nF:d\nR:f\n\n", "corpus", fmt.Sprintf("C: after P:, %d bytes", n))
+			}
+		}
+		indexCase(w, mixed, "corpus", "one index with a checksum of every length")
+		readCase(w, "C:Q1AAAAAAAAAAAAAAAAAAAAAAAAAAA=\nP:a\nV:1\n\n", "corpus", "twenty zero bytes")
+		readCase(w, "C:Q1AQ\nP:a\nV:1\n\n", "corpus", "unpadded base64")
+		readCase(w, "C:Q1AQ==garbage\nP:a\nV:1\n\n", "corpus", "data after the padding")
+		readCase(w, "C:Q1 AQ==\nP:a\nV:1\n\n", "corpus", "blank inside the base64")
+	}
 	{ // installed: F1, F2, fixed 1d693a1 (perms), fixed f746af7 (empty lists), F5
 		tree := []tar.Header{{Name: "usr/", Typeflag: tar.TypeDir, Mode: 0o755}, {Name: "usr/bin/", Typeflag: tar.TypeDir, Mode: 0o750, Uid: 3, Gid: 4},
 			{Name: "usr/bin/ls", Typeflag: tar.TypeReg, Mode: 0o4711, Uid: 5, Gid: 6}}
@@ -803,6 +858,10 @@ func run(dir string, seed uint64, tier string) error {
 	groupsCase(w, []passwd.GroupEntry{{GroupName: "g", Password: "", GID: 1<<32 - 1, Members: []string{"", "a"}}}, "corpus")
 	for _, t := range []string{"", "\n", "root:x:0:0:root:/root:/bin/sh\n", "root:x:0:0:root:/root:/bin/sh", "a:b:c\n", "g:x:5:\n", "g:x:5:a,b\n", "g:x:-1:a\n", "g:x:4294967296:a\n",
 		"u:x:4294967297:-1:i:h:s\n", "  u:x:1:2:i:h:s  \n", "u:x:1:2:i:h:s\r\n", "u:x:+1:2:i:h:s\n", "u:x:1:2:i:h:s:extra\n", "u:x:9223372036854775808:2:i:h:s\n", "\t\n", "g:x:5:,\n", "g:x::\n",
+		// the last line unterminated (the entry must be kept), CRLF endings, a single unterminated line
+		"root:x:0:0:root:/root:/bin/sh\nnobody:x:65534:65534:nobody:/:/sbin/nologin", "wheel:x:10:root,u\nnogroup:x:65533:", "g:x:5:a,b", "g:x:5:",
+		"wheel:x:10:root,u\r\nnogroup:x:65533:\r\n", "a:x:1:\r\nb:x:2:u", "a:x:1:u\r", "root:x:0:0:root:/root:/bin/sh\r\nu:x:1:2:i:h:s\r\n",
+		"root:x:0:0:root:/root:/bin/sh\r\nu:x:1:2:i:h:s", "u:x:1:2:i:h:s\r", "\r\n", "g:x:5:a\n\n", "g:x:5:a\n\ng:x:6:b", "u:x:1:2:i:h:\n", "u:x:1:2:i:h/:s\n", "u:x:1:2:i::s\n",
 		// part counts: a trailing colon, a missing field, a colon inside a field
 		"u:x:1:2:i:h:s:\n", "u:x:1:2:i:h\n", "u:x:1:2:i:/h:o:me:s\n", ":::::::\n", "::::::\n", "u:x:1:2:i:h:s \t\n", "g:x:5:a:b\n", "g:x:5\n", ":::\n", "g:x:5:a,,b,\n", "g:x:5: a , b \n"} {
 		pwReadCase(w, t, "corpus")
